@@ -183,8 +183,15 @@ class C17(core.Check):
             src.parseStr(self._html(case))
             src = src.getRoot()
         els = pc.preorder(src)
-        for sel in case['clones']:
+        for ci, sel in enumerate(case['clones']):
             e = els[int(sel * len(els)) % len(els)]
+            if ci >= 1:
+                # an element that was rendered and then edited through the DOM API: its copies carry the same name / value pairs
+                e.outerHTML
+                e.setAttribute('data-late', '1')
+                if ci == 2:
+                    e.setAttribute('checked', 'checked')
+                    e.style.color = 'red'
             for how, f in (('cloneNode', lambda x: x.cloneNode()), ('copy.copy', copy.copy), ('copy.deepcopy', copy.deepcopy)):
                 try:
                     c = f(e)
